@@ -119,6 +119,14 @@ def programs(tier: str):
     for place in ("spawn", "create"):
         yield {"tree": {"kind": "a", "place": "root", "c": [{"kind": "a", "place": place, "c": []}]}, "cb": "alt", "cancel_enter": 1, "fine": True}
         yield {"tree": {"kind": "a", "place": "root", "c": [{"kind": "a", "place": place, "c": []}]}, "cb": "alt", "cancel_body": 1, "fine": True}
+    # optional parameters of ctx.scope on nested scopes (own trace id, own logger): the scope still
+    # counts for its ancestors' completion
+    for opts in ("trace", "trace-all", "logger"):
+        for n in (2, 3):
+            for shape in tree_shapes(n):
+                for places in itertools.product(("inline", "spawn", "create"), repeat=n - 1):
+                    labels = [("a", "root")] + [("a" if i % 2 else "s", places[i - 1]) for i in range(1, n)]
+                    yield {"tree": _label(shape, labels), "cb": "sync", "opts": opts}
     if tier == "quick":
         # 4-node trees with exactly two task-placed nodes (e.g. two late scopes under one parent)
         for shape in tree_shapes(4):
@@ -260,7 +268,15 @@ def execute(program, ch: Chooser) -> Result:  # noqa: C901, PLR0915
             w.add_victim(f"n{nid}", me)
             entering[f"n{nid}"] = True
         try:
-            cm = ctx.scope(f"n{nid}", completion=make_cb(nid), disposables=disposables)
+            extra_kw: dict = {}
+            opts = program.get("opts")
+            if opts == "trace" and nid % 2 == 1 or opts == "trace-all":
+                extra_kw["trace_id"] = f"own-trace-{nid}"  # an own trace id does not detach the scope
+            elif opts == "logger" and nid % 2 == 1:
+                import logging as _logging
+
+                extra_kw["logger"] = _logging.getLogger(f"own.logger.{nid}")
+            cm = ctx.scope(f"n{nid}", completion=make_cb(nid), disposables=disposables, **extra_kw)
             if t["kind"] == "a":
                 await cm.__aenter__()
             else:
